@@ -336,22 +336,26 @@ func (cw *CountingWindow) getKey(data any) string {
 	v := reflect.ValueOf(data)
 	keyParts := make([]string, 0, len(keys))
 	for _, k := range keys {
-		var part string
+		part := nullGroupKeyPart // NULL / missing value forms its own group
 		switch v.Kind() {
 		case reflect.Map:
 			if v.Type().Key().Kind() == reflect.String {
 				mv := v.MapIndex(reflect.ValueOf(k))
 				if mv.IsValid() {
-					part = cast.ToString(mv.Interface())
+					if iv := mv.Interface(); iv != nil {
+						part = groupKeyPart(cast.ToString(iv))
+					}
 				}
 			}
 		case reflect.Struct:
 			f := v.FieldByName(k)
 			if f.IsValid() {
-				part = cast.ToString(f.Interface())
+				if iv := f.Interface(); iv != nil {
+					part = groupKeyPart(cast.ToString(iv))
+				}
 			}
 		}
 		keyParts = append(keyParts, part)
 	}
-	return strings.Join(keyParts, "|")
+	return strings.Join(keyParts, groupKeySep)
 }
